@@ -256,13 +256,70 @@ fn check_misc(case: &Case, _l: &mut Local) -> Verdict {
     Verdict::Pass { nontrivial: true }
 }
 
+// ---- property escapes as members of classes: unions, complements, intersections and differences of two property
+// sets (and a plain range), swept over all scalar values against set algebra on the V8 export
+
+fn gen_comp(src: &mut Src, _t: Tier) -> Case {
+    let names = names_sorted();
+    let (na, a) = names[src.below(names.len() as u32) as usize].clone();
+    let (nb, b) = names[src.below(names.len() as u32) as usize].clone();
+    let v_mode = src.chance(1, 2);
+    let form = if v_mode { src.below(10) } else { src.below(7) };
+    let pa = |neg: bool, n: &str| format!("\\{}{{{}}}", if neg { 'P' } else { 'p' }, n);
+    let p = match form {
+        0 => format!("[{}{}]", pa(false, &na), pa(false, &nb)),
+        1 => format!("[^{}{}]", pa(false, &na), pa(false, &nb)),
+        2 => format!("[{}{}]", pa(true, &na), pa(false, &nb)),
+        3 => format!("[^{}{}]", pa(true, &na), pa(false, &nb)),
+        4 => format!("[^{}a-z]", pa(true, &na)),
+        5 => format!("[a-z{}]", pa(true, &na)),
+        6 => format!("[^{}{}]", pa(true, &na), pa(true, &nb)),
+        7 => format!("[{}&&{}]", pa(false, &na), pa(false, &nb)),
+        8 => format!("[{}--{}]", pa(false, &na), pa(false, &nb)),
+        _ => format!("[^{}&&{}]", pa(true, &na), pa(false, &nb)),
+    };
+    mk(&p, if v_mode { "v" } else { "u" }, json!({"kind": "comp", "a": a, "b": b, "form": form}))
+}
+
+fn check_comp(case: &Case, l: &mut Local) -> Verdict {
+    let fl = Fl::parse(&case.flags);
+    let db = udata::propdb();
+    let all = scalars();
+    let a = db.sets[case.x["a"].as_u64().unwrap_or(0) as usize].intersect(&all);
+    let b = db.sets[case.x["b"].as_u64().unwrap_or(0) as usize].intersect(&all);
+    let az = crate::esref::cpset::CpSet::from_ranges(vec![(0x61, 0x7A)]);
+    let not = |x: &crate::esref::cpset::CpSet| all.subtract(x);
+    let want = match case.x["form"].as_u64().unwrap_or(0) {
+        0 => a.union(&b),
+        1 => not(&a.union(&b)),
+        2 => not(&a).union(&b),
+        3 => not(&not(&a).union(&b)),
+        4 => not(&not(&a).union(&az)),
+        5 => az.union(&not(&a)),
+        6 => not(&not(&a).union(&not(&b))),
+        7 => a.intersect(&b),
+        8 => a.subtract(&b),
+        _ => not(&not(&a).intersect(&b)),
+    };
+    let got = match sweep_runs(&case.pat, fl, false, false) {
+        Ok(g) => g,
+        Err(e) => return Verdict::Fail(format!("/{}/{} is valid but does not compile: {}", show(&case.pat), case.flags, e)),
+    };
+    if got != want {
+        return Verdict::Fail(format!("/{}/{} over all scalar values: {}", show(&case.pat), case.flags, describe_diff(&got, &want)));
+    }
+    l.add("cells_checked", 1_112_064);
+    Verdict::Pass { nontrivial: !want.is_empty() && want != all }
+}
+
+pub static V_COMP: Variant = Variant { name: "property_compositions", choice_len: 8, gen: gen_comp, check: check_comp };
 pub static V_SWEEP: Variant = Variant { name: "property_sweeps", choice_len: 1, gen: gen_sweep_q, check: check_sweep };
 pub static V_REJECT: Variant = Variant { name: "rejected_names", choice_len: 1, gen: gen_reject, check: check_reject };
 pub static V_STRINGS: Variant = Variant { name: "string_properties", choice_len: 1, gen: gen_strings, check: check_strings };
 pub static V_MISC: Variant = Variant { name: "string_property_longest_first", choice_len: 1, gen: gen_misc, check: check_misc };
 
 pub fn variants() -> Vec<&'static Variant> {
-    vec![&V_SWEEP, &V_REJECT, &V_STRINGS, &V_MISC]
+    vec![&V_SWEEP, &V_REJECT, &V_STRINGS, &V_MISC, &V_COMP]
 }
 
 pub fn run(ctx: &Ctx) -> i32 {
@@ -270,10 +327,11 @@ pub fn run(ctx: &Ctx) -> i32 {
     ctx.run_list(&V_REJECT, &reject_cases(ctx.tier));
     ctx.run_list(&V_STRINGS, &string_cases());
     ctx.run_list(&V_MISC, &misc_cases());
+    ctx.run_variant(&V_COMP, ctx.scale(3_000, 60_000));
     ctx.agg.lock().unwrap().exhaustive = true;
     ctx.finish(
         "exploration",
-        "EXHAUSTIVE: for every property expression ECMAScript admits (1714 spellings of 367 distinct sets: binary properties, General_Category incl. bare values, Script, Script_Extensions, every alias), /(?:\\p{X})+/ under u and under v is run over a haystack holding all 1,112,064 scalar values and the matched set must equal the Unicode 17 set (oracle: V8/ICU 78 export in /verif/oracle, cross-checked against regex-syntax and std); \\P once per distinct set and flag (every spelling, plus PikeVM / no_opt / [^\\p{}] in the thorough tier). ~8.6k names and Name=Value forms outside the ES tables (UCD properties ES does not list, Is/In prefixes, case/space/underscore variants, gc values under Script=...) and malformed or misplaced escapes must be rejected. Properties of strings: two-sided membership of 8.8k candidate strings (every string regress holds + all keycaps, 676 regional-indicator pairs, every Emoji_Modifier_Base x 5 modifiers, tag sequences, every emoji with/without U+FE0F, ZWJ shapes) against V8's verdicts; longest-first matching. Non-trivial = set neither empty nor full / a string that is a member.",
+        "EXHAUSTIVE: for every property expression ECMAScript admits (1714 spellings of 367 distinct sets: binary properties, General_Category incl. bare values, Script, Script_Extensions, every alias), /(?:\\p{X})+/ under u and under v is run over a haystack holding all 1,112,064 scalar values and the matched set must equal the Unicode 17 set (oracle: V8/ICU 78 export in /verif/oracle, cross-checked against regex-syntax and std); \\P once per distinct set and flag (every spelling, plus PikeVM / no_opt / [^\\p{}] in the thorough tier). Property escapes as class members: random pairs of sets in [\\p\\p], [^\\p\\p], [\\P\\p], [^\\P\\p], [^\\P a-z], [a-z\\P], [^\\P\\P] under u and v, and [\\p&&\\p], [\\p--\\p], [^\\P&&\\p] under v, swept over all scalar values against set algebra on the export. ~8.6k names and Name=Value forms outside the ES tables (UCD properties ES does not list, Is/In prefixes, case/space/underscore variants, gc values under Script=...) and malformed or misplaced escapes must be rejected. Properties of strings: two-sided membership of 8.8k candidate strings (every string regress holds + all keycaps, 676 regional-indicator pairs, every Emoji_Modifier_Base x 5 modifiers, tag sequences, every emoji with/without U+FE0F, ZWJ shapes) against V8's verdicts; longest-first matching. Non-trivial = set neither empty nor full / a string that is a member.",
         &["oracle data exported once from V8 11.3 / ICU 78.2 (Unicode 17.0) by oracle/export_v8.js and export_strings_v8.js; SHA-256 in oracle/PROVENANCE.json", "a ZWJ sequence present in Unicode 17 but absent from both regress and the candidate generator cannot be noticed; a valid alias absent from regress, regex-syntax, the spec tables and the candidate list cannot be noticed"],
     )
 }
